@@ -17,6 +17,10 @@ CHECKS = {
    text="Lean theorems over the byte-exact preimages of Info.Hash and Group.Hash (layouts regenerated from the source and tied by rfl): determinism incl. id canonicalisation, every single-field change (period, genesis, public key, seed, id; member key/index, threshold, genesis, transition incl. 0<->non-0, dist key, id) changes the preimage (inner hashes under an explicit collision-freedom hypothesis), joint injectivity under fixed key/seed lengths with the seed/id ambiguity exhibited otherwise, independence of node listing order (sorting of a permutation with distinct indices), chain hash ignores membership, decode rejects a mismatching embedded hash. Tied to the code by hashing the model's preimage (python hashlib) and comparing with the real Hash() on generated groups over all 5 schemes, plus equality across TOML/protobuf/JSON paths and inequality under perturbation on the real code.",
    note="Lean kernel + standard axioms; SHA-256/BLAKE2b collision freedom is a hypothesis; go2lean layout extractor; python hashlib; kyber point encodings opaque.",
    technique="Lean 4 proof (list/byte algebra, permutation sorting) + regenerated hash layouts tied by rfl + differential hash comparison"),
+ "C14": dict(engine="dispatch", design="§3 C14",
+   text="PARTIAL. (A) Decided exactly, by Lean `decide` on relations regenerated from the Go sources on every run: for every method of dkg.Process, echoBroadcast, dispatcher, dkg BoltStore, appendStore, schemeStore, callbackStore, beacon.Handler, core.BeaconProcess and core.DrandDaemon — which mutex it Locks/RLocks, deferred or explicit release, which methods of its own receiver it calls on the same goroutine while holding it, closed transitively over the receiver-internal call graph — no holder reaches a blocking re-acquisition of the same mutex (Lock→Lock, Lock→RLock, RLock→Lock; RLock→RLock listed separately: none), every acquisition is released on every return path, the explicitly released critical sections of the peer-facing handlers contain only reviewed non-panicking calls; the peer-facing gRPC listener installs the recovery interceptor on unary and stream calls, the control listener installs none. The pre-fix relation (Packet holds d.lock and calls BroadcastDKG) is shown to be rejected by the same detector. (B) Lean theorems about a hand-derived dispatch model of the DKG endpoints (DrandDaemon proxies, Process.Packet/BroadcastDKG/DKGStatus, DBState.Apply and below, echoBroadcast) with Option for every nested message: on the peer-facing listener no request in any phase takes the process down (panic ⇒ contained), on the control listener no wire-reachable request panics, every panic is at a listed unguarded dereference (tied to regenerated nil-dereference facts) and leaves the node state and all locks as they were, the only wire-reachable panic is terms.Leader in DBState.Proposed, phases move only along fresh→proposed and joined→executing, and — for the corrected variant of one genuine defect — after ANY request and any finite history the node is not wedged and every probe request is answered exactly as before (still serves); for the code as it is the same under the hypothesis the proof forces (broadcaster channel not full or being read) plus the concrete counterexample. Beacon/public endpoints (PartialBeacon, SyncChain, PublicRand(Stream), ChainInfo, GetIdentity, Status, HTTP paths): totality on the listener, no wire-reachable panic, no blocking outcome in the model. Tied to the code by the engine `dispatch`: real dkg.Process in phases fresh / proposed / joined / executing / after a real in-process three-node DKG / closed, real beacon.Handler over a real bolt store, DrandDaemon/BeaconProcess handler methods, all also through the production gRPC gateway and REST listener on loopback, on a request lattice {nil, empty, valid} × every oneof variant × byte-field and id classes, each call under a 5 s watchdog (+confirmation window) with recover, followed by TryLock probes and probe requests; outcome classes and panic sites are compared with the model, and the property is evaluated directly on the implementation's answers. Two genuine defects of the unchanged code are reported as known findings with witnesses in corpus/C14 (blocking send in echoBroadcast.passToApplication under the broadcaster mutex and d.lock; Protocol.Status dialling a request-chosen address list sequentially under BeaconProcess.state.RLock).",
+   note="Lean kernel + standard axioms. The lock/listener/nil-dereference facts are syntactic (go2lean walker: dies on unbalanced shapes; interface dispatch and cross-type lock ordering are not followed). The request-level model is hand-derived: agreement with the real handlers is sampled (sequential requests, one initial-epoch DKG world, one beacon id), so a Go-level panic or blocking the model does not predict is only found if the lattice hits it. Oracle labels (valid signed proposal/execute packet, validly signed bundle) are set by construction. DrandDaemon/BeaconProcess are assembled by export shims around the real handler methods (not started from a config folder); the control listener is not served over the network; concurrency between requests, TLS, metrics endpoints are out of scope. sync.Mutex/channel semantics, grpc-go and its recovery middleware, net/http recover are modelled, not verified.",
+   technique="Lean 4 proof (decide on regenerated lock/call relations; case analysis over the dispatch model; induction over request histories) + go2lean fact extraction (locks, calls-while-held, nil dereferences, interceptor chains) + differential correspondence and direct property oracle on real service objects in-process and over loopback gRPC/HTTP"),
  "C02": dict(engine="chain", design="§3 C02",
    text="Lean theorems over the store stack appendStore→schemeStore→base map as coded: for every sequence of Puts (aggregation and sync interleaved arbitrarily — both go through the one mutex-held appendStore.Put, a regenerated lock fact) and restarts, the stored rounds are exactly 0..head, linked by previous signatures (chained) or stripped of them (unchained), the wrappers' cached head equals the stored head; a successful Put writes exactly head+1 and changes no stored round, any other Put changes nothing (re-put of the head answers 'already' iff equal); two nodes whose stores satisfy the invariant and hold only verifying beacons agree byte for byte on every common round (induction on the round, under the explicit uniqueness-of-BLS-signatures hypothesis); the repair path cannot replace a valid beacon by a different valid one. Tied to the code by running the real newAppendStore(NewSchemeStore(base)) over trimmed bolt, untrimmed bolt and memdb against the model and against a gap-free/append-only oracle.",
    note="Lean kernel + standard axioms; base store = sorted map (C18 correspondence); sync.Mutex semantics; SigUnique hypothesis; multi-node agreement is the theorem c02_agree plus C01/C10 validity, real multi-node runs are exercised under C05.",
